@@ -1,8 +1,10 @@
 ------------------------------ MODULE IrcMsg ------------------------------
 (* C18, IRC part - generative model of circuits.protocols.irc.message.Message
    (constructor check, __str__/__bytes__), the command constructors of
-   commands.py, and the reader the repository uses on the other side
-   (circuits.protocols.line.splitLines + circuits.protocols.irc.utils.parsemsg).
+   commands.py, the IRC component's default `request` handler (which turns a
+   command event into one `write` event for the transport), and the reader the
+   repository uses on the other side (circuits.protocols.line.splitLines /
+   a peer's Line component + circuits.protocols.irc.utils.parsemsg).
 
    The environment chooses a case: kind ("raw" = Message(command, args...,
    prefix=..), "cmd" = a command constructor NAME(args...) = Message(NAME,
@@ -28,9 +30,22 @@
                          cannot represent and marks every last argument that
                          needs it.  Model-checked to satisfy the monitor: C18
                          is satisfiable, the monitor is not vacuous.
+     variant = "cut512"  "fixed", but the component writes only the first
+                         CutLen bytes of bytes(message) (CutLen stands for the
+                         512 of RFC 1459): a longer message goes out without
+                         its terminator and the next command is glued onto the
+                         same line at the peer.  TLC must find
+                         C18.no_terminator (teeth).
+   Every command goes message -> bytes(message) ("wire", read back with
+   splitLines) -> the component's write ("sent", one per command, equal to the
+   wire form except in "cut512") -> the peer's Line component, which keeps an
+   unterminated rest (variable-free here: `pb` is threaded through Go).  With
+   FollowUp a second, fixed command (Message('a', 'a')) is sent through the
+   same component and peer after every serialised case: two commands in a row
+   must come out as two lines.
    The exhaustive configurations use {"strict"} with the invariants below;
-   the case dump uses all three and the driver checks that TLC's monitor
-   flags "pinned" and "fixed" (bad # "") and that "strict" sends something.
+   the case dump uses all variants and the driver checks that TLC's monitor
+   flags "pinned", "fixed" and "cut512" (bad # "") and that "strict" sends.
    A variant is a generator, never an oracle: verdicts on the real code come
    from the monitor (IrcMsgOps) alone.                                      *)
 EXTENDS IrcMsgOps, Naturals, FiniteSets, TLC
@@ -42,7 +57,9 @@ CONSTANTS Kinds,       \* subset of {"raw", "cmd", "whois"}
                        \* (FALSE: a raw case with a prefix has a benign command, <<3>> or <<KW>>)
           ArgTokens,   \* tokens of argument strings
           MaxArgs, MaxLen,
-          Variants     \* subset of {"pinned", "fixed", "strict"}
+          CutLen,      \* the length limit of the "cut512" variant (stands for 512)
+          FollowUp,    \* BOOLEAN: a second fixed command after every serialised case
+          Variants     \* subset of {"pinned", "fixed", "strict", "cut512"}
 
 VARIABLES variant,
           stage,  \* "head" | "args" | "done"
@@ -121,7 +138,7 @@ Refused(m) ==
       strict == \/ fixed
                 \/ \E i \in 1..(n - 1) : m.a[i] = <<>> \/ Lead(m.a[i], COLON)
   IN CASE variant = "pinned" -> pinned
-       [] variant = "fixed"  -> fixed
+       [] variant \in {"fixed", "cut512"} -> fixed
        [] OTHER              -> strict
 
 WireOf(m) ==
@@ -156,7 +173,27 @@ AddArg(a) ==
   /\ cs' = [cs EXCEPT !.args = Append(@, a)]
   /\ UNCHANGED <<variant, stage, P, bad, res, out>>
 
-(* build, serialise, read back *)
+(* what the IRC component hands to the transport for a serialised message *)
+SentOf(w) == IF variant = "cut512" /\ Len(w) > CutLen THEN SubSeq(w, 1, CutLen) ELSE w
+
+(* the trace lines of one command: message, bytes(message) read back alone,
+   the component's write read by the peer's Line component holding pb.
+   Returns <<lines, pb'>>.                                                  *)
+Block(m, pb) ==
+  LET w  == WireOf(m)
+      ls == L!Split(w)[1]
+      s  == SentOf(w)
+      r  == L!Split(pb \o s)
+  IN << <<Rec("msg", m.hp, m.p, m.hc, m.c, m.a, <<>>),
+          Rec("wire", FALSE, <<>>, FALSE, <<>>, <<>>, w)>>
+        \o [i \in 1..Len(ls) |-> ParseLine(ls[i])]
+        \o <<Rec("sent", FALSE, <<>>, FALSE, <<>>, <<>>, s)>>
+        \o [i \in 1..Len(r[1]) |-> ParseLine(r[1][i])],
+        r[2] >>
+
+Follow == [hp |-> FALSE, p |-> <<>>, hc |-> TRUE, c |-> <<3>>, a |-> << <<3>> >>]   \* Message('a', 'a')
+
+(* build, serialise, send, read back *)
 Go ==
   /\ stage = "args"
   /\ cs.kind = "whois" => Len(cs.args) = 1
@@ -165,13 +202,10 @@ Go ==
      IF Refused(m)
      THEN /\ res' = [status |-> "rejected", m |-> m, w |-> <<>>]
           /\ Emit(<<Plain("reject"), Plain("end")>>)
-     ELSE LET w  == WireOf(m)
-              ls == L!Split(w)[1]
-          IN /\ res' = [status |-> "sent", m |-> m, w |-> w]
-             /\ Emit(<<Rec("msg", m.hp, m.p, m.hc, m.c, m.a, <<>>),
-                       Rec("wire", FALSE, <<>>, FALSE, <<>>, <<>>, w)>>
-                     \o [i \in 1..Len(ls) |-> ParseLine(ls[i])]
-                     \o <<Plain("end")>>)
+     ELSE LET b1 == Block(m, <<>>)
+              b2 == IF FollowUp THEN Block(Follow, b1[2]) ELSE << <<>>, b1[2] >>
+          IN /\ res' = [status |-> "sent", m |-> m, w |-> WireOf(m)]
+             /\ Emit(b1[1] \o b2[1] \o <<Plain("end")>>)
 
 Next == \/ /\ stage = "head"       \* guards outside the quantifiers: TLC enumerates the bound sets first
            /\ \E kind \in Kinds, hp \in BOOLEAN, hc \in BOOLEAN :
